@@ -39,6 +39,9 @@ func main() {
 				all = append(all, observe(u, *plug, *out)...)
 			}
 		}
+		if what == "determinism" {
+			all = append(all, observeDeterminism(*plug, *out, 0)...)
+		}
 		if what == "" || what == "selection" {
 			for _, sel := range selections() {
 				all = append(all, observeSelection(sel, *plug, *out))
